@@ -883,6 +883,20 @@ void HyperedgeImprover::execute(bool canMakeMajorChanges)
             new HyperedgeTreeEdge(prev, node, connRef);
             prev = node;
         }
+        if (route.size() < 2)
+        {
+            // The connector has no route (yet), so no edges were created
+            // and an end node that does not belong to a junction is not
+            // reachable from any tree: free it here.
+            if (!jFront)
+            {
+                delete nodeFront;
+            }
+            if (!jBack)
+            {
+                delete nodeBack;
+            }
+        }
         ++connRefIt;
     }
 
